@@ -145,46 +145,30 @@ def needed_models(prop):
     return [i for i in ids if i not in ("Proto", "Dispatch")]
 
 
-def uvmodel_path():
-    return os.environ.get("UVMODEL_EXE") or os.path.join(LEAN, ".lake", "build", "bin", "uvmodel")
+def enabled_models():
+    ids = [l.strip() for l in open(os.path.join(LEAN, "Driver", "enabled.txt")) if l.strip() and not l.startswith("#")]
+    return [i for i in ids if os.path.exists(os.path.join(LEAN, "Driver", i + ".lean"))]
 
 
-def _private_uvmodel(prop, targets):
-    """Fallback when the shared driver executable does not build because the driver of ANOTHER property is
-    broken (e.g. a change to /repo broke that property's regenerated definitions): build a driver with only
-    the models this check needs, keep a private copy, and leave the shared dispatch as it was.  Without this
-    a defect under one property would raise proof-obligation alarms under all the others."""
-    import fcntl
-    ids = needed_models(prop)
-    lockf = open(os.path.join(LEAN, ".lake", "verif-exe.lock"), "w")
-    fcntl.flock(lockf, fcntl.LOCK_EX)
-    try:
-        gen = os.path.join(VERIF, "tools", "gen_dispatch.py")
-        sh(["python3", gen], env=dict(os.environ, VERIF_DISPATCH="only:" + ",".join(ids)))
-        r = sh(["lake", "build"] + list(targets), cwd=LEAN)
-        if r.returncode == 0:
-            d = tempfile.mkdtemp(prefix="uv-exe-%s-" % prop, dir="/var/tmp")
-            shutil.copy(os.path.join(LEAN, ".lake", "build", "bin", "uvmodel"), os.path.join(d, "uvmodel"))
-            os.environ["UVMODEL_EXE"] = os.path.join(d, "uvmodel")
-            atexit.register(shutil.rmtree, d, True)
-        sh(["python3", gen])
-        return r
-    finally:
-        fcntl.flock(lockf, fcntl.LOCK_UN)
-        lockf.close()
+def uvmodel_path(model=None):
+    """the driver executable of one model (`uv_<model>`); every model has its own executable, so a driver
+    of another property that does not compile (e.g. because a change to /repo broke that property's
+    regenerated definitions) can neither break the build nor the runs of this check"""
+    return os.path.join(LEAN, ".lake", "build", "bin", "uv_" + (model or CURRENT_PROP or "Mcount"))
+
+
+def exe_targets(prop=None):
+    return ["uv_" + i for i in (needed_models(prop) if prop else enabled_models())]
 
 
 def lake_build(targets):
-    """lake build of the given module targets (+ the driver). Returns (ok, log)."""
-    r = sh([os.path.join(VERIF, "tools", "lk"), "build"] + list(targets))
-    if r.returncode != 0 and "uvmodel" in targets and "Driver" in r.stdout:
-        # a driver of a property that is still under construction does not compile:
-        # rebuild the dispatcher with the claimed properties' drivers only
-        r = sh([os.path.join(VERIF, "tools", "lk"), "build"] + list(targets), env=dict(os.environ, VERIF_DISPATCH="claimed"))
-    if r.returncode != 0 and "uvmodel" in targets and CURRENT_PROP:
-        r2 = _private_uvmodel(CURRENT_PROP, targets)
-        if r2.returncode == 0:
-            return True, r2.stdout
+    """lake build of the given module targets; the pseudo target `uvmodel` stands for the driver
+    executables the running check needs.  Returns (ok, log)."""
+    targets = list(targets)
+    if "uvmodel" in targets:
+        targets.remove("uvmodel")
+        targets += exe_targets(CURRENT_PROP)
+    r = sh([os.path.join(VERIF, "tools", "lk"), "build"] + targets)
     return r.returncode == 0, r.stdout
 
 
@@ -276,19 +260,11 @@ def audit(ctx, prop):
 
 
 def run_model(model, lines, timeout=600):
-    exe = uvmodel_path()
-    r = None
-    try:
-        r = subprocess.run([exe, model], input="\n".join(lines) + "\n", stdout=subprocess.PIPE,
-                           stderr=subprocess.PIPE, text=True, timeout=timeout)
-    except (FileNotFoundError, PermissionError, OSError):
-        pass
-    if (r is None or (r.returncode != 0 and "unknown model" in r.stderr)) and CURRENT_PROP and not os.environ.get("UVMODEL_EXE"):
-        # the shared executable is being relinked, or was relinked with another check's restricted dispatch:
-        # make a private one with the models this check needs
-        _private_uvmodel(CURRENT_PROP, ["uvmodel"])
-        r = subprocess.run([uvmodel_path(), model], input="\n".join(lines) + "\n", stdout=subprocess.PIPE,
-                           stderr=subprocess.PIPE, text=True, timeout=timeout)
+    exe = uvmodel_path(model)
+    if not os.path.exists(exe):
+        sh([os.path.join(VERIF, "tools", "lk"), "build", "uv_" + model])
+    r = subprocess.run([exe, model], input="\n".join(lines) + "\n", stdout=subprocess.PIPE,
+                       stderr=subprocess.PIPE, text=True, timeout=timeout)
     if r.returncode != 0:
         raise RuntimeError("uvmodel %s failed: %s" % (model, r.stderr[-500:]))
     out = r.stdout.split("\n")
